@@ -474,5 +474,5 @@ pub fn run_case<V: VringT<GM> + Clone + Send + Sync + 'static>(case: &Value, tra
     }
     drop(listeners);
     let _ = rig.finish();
-    trace.emit(json!({"ev": "end"}));
+    trace.emit(json!({"ev": "end", "nfds": std::fs::read_dir("/proc/self/fd").map(|d| d.count()).unwrap_or(0)}));
 }
